@@ -58,6 +58,30 @@ func (c *countCtx) Err() error {
 	}
 }
 
+// gateLogger is the logger handed to the book in one scenario: it parks the truncation loop at its
+// "Starting truncate" message, i.e. between taking a weight from the signal channel and taking the book lock
+// (in production this is a synchronous write to the log sink).
+type gateLogger struct {
+	parked  chan struct{}
+	release chan struct{}
+	once    sync.Once
+}
+
+func (g *gateLogger) Debug(string) {}
+func (g *gateLogger) Warn(string)  {}
+func (g *gateLogger) Error(string) {}
+func (g *gateLogger) Fatal(string) {}
+func (g *gateLogger) Info(msg string) {
+	if strings.HasPrefix(msg, "Starting truncate") {
+		first := false
+		g.once.Do(func() { first = true })
+		if first {
+			close(g.parked)
+			<-g.release
+		}
+	}
+}
+
 type lockBook struct {
 	ab     *accountant.AccountingBook
 	cancel context.CancelFunc
@@ -373,6 +397,48 @@ func locksMain(args []string) {
 				time.Sleep(50 * time.Millisecond)
 			}
 			return "no truncation happened"
+		})
+	}
+	// B4. the truncation loop is slow to start (its log write takes a while) after it took a triggering weight from
+	// the signal channel; meanwhile more leaves are admitted than the channel holds. Nobody may end up blocked on the
+	// channel while holding the book lock - the loop needs that lock to go on.
+	{
+		if r.lb != nil {
+			r.lb.close()
+		}
+		gl := &gateLogger{parked: make(chan struct{}), release: make(chan struct{})}
+		lb := &lockBook{}
+		for _, w := range []*wallet.Wallet{&lb.node, &lb.gr, &lb.a, &lb.b} {
+			*w, _ = wallet.New()
+		}
+		ctx, cancel := context.WithCancel(context.Background())
+		lb.cancel = cancel
+		lb.ab, _ = accountant.NewAccountingBook(ctx, accountant.Config{Truncate: 2000}, wallet.NewVerifier(), &lb.node, gl)
+		_, _ = lb.ab.CreateGenesis("GENESIS", spice.New(1_000_000, 0), []byte{}, lb.gr.Address())
+		r.lb = lb
+		r.scenario("truncate.signalfull", 60, func(lb *lockBook) string {
+			tip, _ := lb.propose(context.Background())
+			v, _ := accountant.NewVertex(lb.newTrx(), tip.Hash, tip.Hash, 500_000, &lb.b)
+			if err := lb.ab.AddLeaf(context.Background(), &v); err != nil {
+				return "addleaf:" + errClass(err)
+			}
+			select {
+			case <-gl.parked:
+			case <-time.After(3 * time.Second):
+				close(gl.release)
+				return "the truncation loop did not start"
+			}
+			done := make(chan struct{})
+			go func() {
+				defer close(done)
+				for i := 0; i < 60; i++ {
+					_, _ = lb.propose(context.Background())
+				}
+			}()
+			time.Sleep(50 * time.Millisecond)
+			close(gl.release)
+			<-done
+			return "ok"
 		})
 	}
 	// C. validation error inside a walk: a tip whose funds do not suffice is dropped by the next proposal
